@@ -56,6 +56,10 @@ Expected(ev) ==
     [] ev.op = "withfield_b" -> VWithFieldBroadcast(ev.v, ev.T, a.new, a.vals)
     [] ev.op = "withfield" -> VWithFieldSelf(ev.v, ev.T, a.key, a.new)
     [] ev.op = "ufunc" -> VUfunc(ev.v, ev.T, a.mul = 1)
+    \* x + mask(x, m): the sum where both are present, None where either is missing (C04)
+    [] ev.op = "addmasked" -> LET r == VUfunc(ev.v, ev.T, FALSE) IN
+                              IF r.ok # 1 \/ Len(a.m) # Len(ev.v.xs) THEN (IF r.ok = 1 THEN Unspec ELSE r)
+                              ELSE Ok(VList([k \in 1..Len(a.m) |-> IF a.m[k] = a.vw THEN r.v.xs[k] ELSE VNone]))
     [] ev.op = "filter" -> VFilter(ev.v, ev.T, a.k)
     \* round trips through the conversion functions: everything reachable survives (C14, C15, C16)
     \* (JSON and from_iter go through the ArrayBuilder, which UNIFIES records of different field sets into one record type
